@@ -1823,7 +1823,16 @@ Slices:
                 ret = append(ret, '\\')
                 continue Slices
             case 'x':
-                var bt, _ = hex.DecodeString(string(slice[2:]))
+                var bt, err = hex.DecodeString(string(slice[2:]))
+                if err != nil || len(bt) == 0 {
+                    diags = append(diags, &hcl.Diagnostic{
+                        Severity: hcl.DiagError,
+                        Summary:  "Invalid escape sequence",
+                        Detail:   "The \\x escape sequence must be followed by an even number of hexadecimal digits.",
+                        Subject:  rng.Ptr(),
+                    })
+                    break TokenType
+                }
                 ret = append(ret, bt...)
                 continue Slices
             case 'u', 'U':
